@@ -41,7 +41,8 @@ EAGER = ["e_ack", "e_nack", "e_reject", "e_retry", "e_force_retry", "e_reschedul
 
 def fam_c02(tier, rng):
     scs = []
-    outcomes = ["ok", "raise", "timeout"] + EAGER + ["e_ack+res", "e_nack+exc+cb", "e_retry+cb", "e_reschedule+res+cb"]
+    outcomes = ["ok", "raise", "timeout"] + EAGER + ["e_ack+res", "e_nack+exc+cb", "e_retry+cb", "e_reschedule+res+cb",
+                                                    "e_ack+sw", "e_nack+sw", "e_reject+sw", "e_retry+sw"]
     for out in outcomes:
         for mx in (0, 1, 2):
             for pre in range(0, mx + 1):            # attempts that fail before `out` is tried
@@ -68,6 +69,14 @@ def fam_c02(tier, rng):
                 jobs=[{"id": "j", "actor": "job", "script": ["ok"], "retries": mx, "args": {"unexpected": 1}, "must_run": False},
                       {"id": "s", "actor": "job", "script": ["ok"], "at_ms": 700}],
                 actors={"job": {"variant": "plain", "policy": ["const", 100]}}, converter=conv,
+                worker={"tasks_limit": 2, "messages_limit": 0, "grace_s": 0.5}, horizon_ms=4000, deadline_ms=3500))
+    # result-storing jobs handled by a worker whose connection has no result store: every execution still gets its disposition
+    for out in ("ok", "raise"):
+        for mx in (0, 1):
+            scs.append(default_scenario(
+                jobs=[{"id": "j", "actor": "job", "script": [out, "ok"], "retries": mx, "result": True},
+                      {"id": "s", "actor": "job", "script": ["ok"], "at_ms": 700, "result": True}],
+                actors={"job": {"variant": "plain", "policy": ["const", 100]}}, results=True, worker_without_results=True,
                 worker={"tasks_limit": 2, "messages_limit": 0, "grace_s": 0.5}, horizon_ms=4000, deadline_ms=3500))
     # multi-step: an eager (forced) retry followed by an ordinary outcome
     for out in ("e_retry", "e_force_retry", "e_reject", "e_reschedule"):
@@ -198,6 +207,12 @@ def fam_c10(tier, rng):
                         scs.append(default_scenario(jobs=jobs, actors=actors,
                                                     worker={"tasks_limit": tl, "messages_limit": m, "grace_s": 0.5},
                                                     horizon_ms=20000, deadline_ms=None, must_self_stop=True))
+    # executions that are still under way long after the limit was reached: run() returns once they have finished (the
+    # graceful period is long enough), they are not cut short
+    for m, dur, g in ((2, 6500, 12.0), (1, 8000, 20.0)):
+        jobs = [{"id": f"m{k}", "actor": "a0", "script": ["ok"], "dur_ms": [dur]} for k in range(m + 2)]
+        scs.append(default_scenario(jobs=jobs, actors={"a0": {"queue": "q0"}}, worker={"tasks_limit": 2, "messages_limit": m, "grace_s": g},
+                                    horizon_ms=30000, deadline_ms=None, must_self_stop=True))
     return scs
 
 
@@ -215,7 +230,7 @@ def fam_c11(tier, rng):
             q = rng.randrange(nq)
             misplaced = (not mine) and nq > 1 and rng.random() < 0.5
             other = f"mine{(q + 1 + rng.randrange(nq - 1)) % nq}" if misplaced else None
-            jobs.append({"id": f"m{k}", "actor": f"mine{q}" if mine else (other or f"foreign{rng.randrange(2)}"), "queue": f"q{q}",
+            jobs.append({"id": f"m{k}", "actor": f"mine{q}" if mine else (other or rng.choice([f"foreign{rng.randrange(2)}", f"mine{q}x", f"mine{q}_daily"])), "queue": f"q{q}",
                          "script": ["ok"], "dur_ms": [rng.choice([0, 50])], "at_ms": rng.choice([0, 0, 200]),
                          "must_run": mine, "foreign": not mine})
         scs.append(default_scenario(jobs=jobs, actors=actors, worker={"tasks_limit": rng.choice([1, 3]), "messages_limit": 0, "grace_s": 0.5},
@@ -232,6 +247,12 @@ def fam_c03(tier, rng):
         [{"id": "a", "actor": "job", "script": ["ok"], "dur_ms": [250], "defer_by_ms": 1000}],
         [{"id": f"m{k}", "actor": "job", "script": ["ok"], "dur_ms": [200]} for k in range(3)],
     ]
+    # the worker stops by itself (messages limit) while an execution is under way that takes longer than any slack: with a
+    # graceful period of 0 it is cancelled at once, with a long one it is left to finish
+    for g, dur in ((0.0, 9000), (0.3, 9000), (12.0, 6500)):
+        scs.append(default_scenario(jobs=[{"id": "a", "actor": "job", "script": ["ok"], "dur_ms": [dur]}, {"id": "b", "actor": "job", "script": ["ok"], "dur_ms": [dur]}],
+                                    actors={"job": {"policy": ["const", 0]}}, worker={"tasks_limit": 2, "messages_limit": 2, "grace_s": g},
+                                    horizon_ms=16000))
     for jobs in shapes:
         for g in (0.0, 0.05, 1.0):
             for tl in (1, 2):
